@@ -237,8 +237,17 @@ CLAIMED["C09"] = {
     "design_ref": "DESIGN.md §9 C09, §11.9",
 }
 
+CLAIMED["C06"] = {
+    "category": "exploration",
+    "text": "BOUNDED only (labelled; nothing here is counted as proved): the property relates two parses, and the expansion engine works on parser IL with dyn Fn callbacks, scope frames and evaluated iterables that Verus does not accept and Kani cannot execute. "
+            "The statement is executed instead on 16 hand-written pairs (compact text, hand-unrolled text) covering sum over ranges / arrays / matrices / dependent ranges, for-quantified named rows, enumerate, zip, len, array access, prod / avg / min / max / all / any / xor blocks, "
+            "graph nodes / weighted edges / neighbour edges, indexed and compound variable names and multi-index declarations: both texts of a pair must compile to the same linear model (rows in order with names, coefficients and right-hand sides; objective; variables; domains).",
+    "note": "Bound: the pairs in units/U06.unroll/witness.rs. Trusted: that each unrolled text is the iteration-order unrolling of its compact text (written by hand from the language documentation).",
+    "technique": "bounded executable check of compact vs hand-unrolled texts through the real front end (stand-in where no contract can reach; labelled bounded)",
+    "design_ref": "DESIGN.md §9 C06, §11.9",
+}
+
 NOT_APPLICABLE = {
     "C03": "quantifies over source texts through the pest-generated parser and an external MILP search; every in-repo step that can carry a contract is covered by C01/C02/C04/C05; no further function exists to attach an obligation to",
-    "C06": "relates two parses; the expansion engine works on parser IL with dyn Fn callbacks, scope frames and evaluated iterables that Verus does not accept and Kani cannot execute; its specification would be a formal semantics of the whole language",
 
 }
